@@ -10,11 +10,13 @@ Proof. vm_compute. reflexivity. Qed.
 
 (* Every archive the dump produces: the root carries the current protocol and the version; at every position
    where a loader reads a node-state (CodecWf.chk follows the loaders' child positions) the state has
-   __loader__ (one of model_loaders), __class__, __module__ and __id__.  By induction on the value.
-   Guard no_rank0: a rank-0 object array re-uses its cell state's raw content (and can never be loaded). *)
+   __loader__ (one of model_loaders), __class__, __module__ and __id__; the content of an object array is a list of
+   node-states for every rank (CodecWf.chk MNd: no longer "anything" for a non-list content).  By induction on the value,
+   for EVERY value that dumps: the former guard no_rank0 is gone with the repair of C13-F1 (a rank-0 object array used to
+   re-use its cell state's raw content; it is dumped as the one-element list around its cell now). *)
 Theorem C12_schema_wf :
   forall (D : denv) (base : Z) (v : pval) (a : archive),
-    dumps_model D base v = Ok a -> no_rank0 v = true ->
+    dumps_model D base v = Ok a ->
     schema_wf (dn_cur D) (dn_version D) (a_schema a) = true.
 Proof. exact dumps_schema_wf. Qed.
 Print Assumptions C12_schema_wf.
@@ -29,20 +31,18 @@ Print Assumptions C12_loader_registered.
 
 (* The full statement.  Its former refutation (finding C12-F1: two dict keys with one JSON spelling left the first
    value's member unreferenced) is gone with the repair of D08: such a dict is refused (C12_colliding_keys_refused
-   below).  What keeps the theorem below "partial" is the rank-0 object array only (not covered by the induction). *)
+   below); its last guard (no rank-0 object array) is gone with the repair of C13-F1: it is proved as stated. *)
 Definition C12_members_exact_full_statement : Prop :=
   forall D base v a, dumps_model D base v = Ok a ->
     forall n, In n (map fst (a_members a)) <-> In n (file_refs (a_schema a)).
 
 (* Every member a node refers to exists and every member (other than schema.json) is referred to by some node --
-   for EVERY value that dumps and has no rank-0 object array; no hypothesis on dict keys any more: two kept keys with
+   for EVERY value that dumps (object arrays of every rank included); no hypothesis on dict keys: two kept keys with
    the same JSON spelling make dict_get_state raise, a key json cannot write makes json.dumps(state) raise in _save
    (both: dumps_model <> Ok).  By induction on the value, all kinds. *)
-Theorem C12_members_exact_partial :
-  forall D base v a, dumps_model D base v = Ok a -> no_rank0 v = true ->
-    forall n, In n (map fst (a_members a)) <-> In n (file_refs (a_schema a)).
+Theorem C12_members_exact : C12_members_exact_full_statement.
 Proof. exact dumps_members_exact. Qed.
-Print Assumptions C12_members_exact_partial.
+Print Assumptions C12_members_exact.
 
 (* every member name of every archive the dump produces is flat (not empty, no '/', no '\', no ':') and is
    <id>.npy, <id>.npz, u<n>.bin (a fresh uuid token) or schema.json.  By induction on the value; uses that the decimal
@@ -119,10 +119,21 @@ Example C12_targets_nonvacuous :
   /\ SinkFacts.target_ok st (SinkFacts.TSink (Dump.SinkFile [PyStr.s "d"; PyStr.s "old.skops"])).
 Proof. cbn. repeat split; try reflexivity. eexists; reflexivity. Qed.
 
+(* a rank-0 object array holding a bytes object and an array, and a (2,0) array: well-formed, members = references
+   (C13-F1: the rank-0 schema used to hold the cell state's raw content in place of a list of states) *)
+Example C12_rank0_objarray_wf :
+  let v := plist 9 [PObjArr 2 (s "numpy") (s "ndarray") [] [plist 3 [PBytes 4 false (s "builtins") (s "bytes") (s "78"); PArr 5 false (s "numpy") (s "ndarray") (s "tok")]];
+                    w_objarr_20] in
+  match dumps_model (wd Snapshot.current) wbase v with
+  | Ok a => schema_wf Snapshot.current (s "0.0") (a_schema a) && members_exact a && Nat.eqb (length (a_members a)) 2
+  | Raise _ => false
+  end = true.
+Proof. vm_compute. reflexivity. Qed.
+
 (* non-vacuity / examples on a nested value with .npy, .npz and .bin members *)
 Example C12_nonvacuous :
   match dumps_model (wd Snapshot.current) wbase w_nested with
-  | Ok a => schema_wf Snapshot.current (s "0.0") (a_schema a) && no_rank0 w_nested && members_exact a
+  | Ok a => schema_wf Snapshot.current (s "0.0") (a_schema a) && members_exact a
             && forallb flat_name (member_names a) && Nat.eqb (length (a_members a)) 5
   | Raise _ => false
   end = true.
